@@ -193,6 +193,7 @@ class Builder:
         self.steps = []               # labels in creation order
         self.counter = 0
         self.written = {}             # path -> content StepUp's steps wrote (disk mode)
+        self.forgotten = set()        # outputs whose hash StepUp dropped after an EXTERNAL update
         self.log = []                 # operations performed (for witnesses)
 
     # -- helpers ------------------------------------------------------------------------------
@@ -384,6 +385,33 @@ class Builder:
             if st is not None and self.rng.random() < fraction:
                 self.complete(st)
 
+    def outdate_some(self, labels, prob=0.35):
+        """Leave outputs OUTDATED (or PLANNED with the file still on disk) at rest, the way an upstream
+        failure, a build restricted to targets, an interrupted build or an external change does."""
+        from stepup.core.enums import FileState, HashUpdateCause, StepState
+        from stepup.core.file import File
+        rng = self.rng
+        for label in labels:
+            st = self.find_step(label)
+            if st is None or st.get_state() != StepState.SUCCEEDED or rng.random() >= prob:
+                continue
+            how = rng.choice(["pending", "pending", "failed", "external"])
+            if how == "pending":
+                # an input changed / an upstream step will rerun: SUCCEEDED -> PENDING, BUILT -> OUTDATED
+                self.wf.mark_step_pending(st)
+            elif how == "failed":
+                # the step ran again and failed (or was interrupted): BUILT -> OUTDATED, hash kept
+                st.set_state(StepState.RUNNING)
+                st.mark_completed(None, False)
+            else:
+                # StepUp noticed an external change of one output: BUILT -> PLANNED, hash dropped
+                outs = [f for f in st.products(File) if f.get_state() == FileState.BUILT]
+                if outs:
+                    f = rng.choice(outs)
+                    self.wf.update_file_hashes({f.label: self.hash_of(f.label)}, cause=HashUpdateCause.EXTERNAL)
+                    self.forgotten.add(f.label)
+            self.log.append(["outdate", how, label])
+
     def drop_random(self, labels):
         """Detach a random subset of declarations, the way a rerun of their creator drops them."""
         from stepup.core.file import File
@@ -549,6 +577,7 @@ async def disk_case(rng, guard, hids, witness=None):
             else:
                 made = b.grow(rng.randint(2, 6))
                 b.complete_all(made)
+                b.outdate_some(made, prob=0.25)
                 b.drop_random(made)
             edits = user_edits(b, rng, made)
             # everything still attached must have run, otherwise the build is incomplete
@@ -590,6 +619,7 @@ async def disk_case(rng, guard, hids, witness=None):
         res["contents_after"] = {p: Path(p).read_text() for p, e in res["after_fs"].items() if e != "dir"}
         res["ever_output"] = sorted(b.ever_output)
         res["written"] = dict(b.written)
+        res["forgotten"] = sorted(b.forgotten)
         res["edits"] = edits
         res["log"] = b.log
     return res
@@ -740,6 +770,19 @@ def oracle_c07(res):
             an = after_nodes.get(p)
             if an is not None and n["fstate"] != VOLATILE and an["fstate"] != 15:
                 out.append(("finalize:optional-output-not-reset", f"{p} is {an['fstate']} after revert"))
+    # history view: whatever an earlier build wrote, that the user did not touch, whose node is detached and
+    # held by nothing, must be gone -- whatever state the node passed through in between
+    files_before = _nodes_by_path(g0)
+    for p, content in res["written"].items():
+        n = files_before.get(p)
+        if n is None or not n["det"] or n["key"] in held or p in res.get("forgotten", ()):
+            continue
+        if res["edits"].get(p) or res["contents_before"].get(p) != content:
+            continue
+        if p in after:
+            out.append(("finalize:orphan-file-kept",
+                        f"{p} was written by an earlier build, is unmodified, its node (state {n['fstate']}) is detached and "
+                        f"held by nothing, and it is still on disk"))
     # emptied directories
     removed_files = [p for p in before if before[p] != "dir" and p not in after]
     for p in removed_files:
@@ -881,3 +924,132 @@ def e3_witness(rec):
     return {"e3_seed": rec["seed"], "phase": rec["phase"], "build": rec.get("kw"), "rc": rec.get("rc"),
             "edits": rec.get("edits"), "tampered": rec.get("tampered"), "removed_events": rec.get("removed_events"),
             "how": "harness.e3_gen.gen_case(seed, max_phases=4) replayed phase by phase with harness.e3.build"}
+
+
+# ---------------------------------------------------------------------------------------------
+# Three builds: a step keeps its command but renames its output while a new step still reads the old one
+# ---------------------------------------------------------------------------------------------
+
+
+def rename_witness(rng, volatile=None, third=None, tamper=None):
+    """Returns a witness function for disk_case.  Build 1: A -> old.  Build 2: A -> new, new step B reads old
+    (old is re-created creator-less through File.initialize_row's keep rule; B cannot run: incomplete, no
+    cleanup).  Build 3: B is gone (or reads new); the build succeeds and must remove the unmodified old."""
+    d = rng.choice(["", "", "d1/", "d1/s/"])
+    r1, r2, r3 = rng.random() < 0.25, rng.choice(["drop-b", "drop-b", "b-reads-new"]), rng.random() < 0.2
+    volatile = r1 if volatile is None else volatile
+    third = r2 if third is None else third
+    tamper = r3 if tamper is None else tamper
+    old, new, bout, src = f"{d}old.txt", f"{d}new.txt", "b.txt", "src.txt"
+
+    def witness(b):
+        from stepup.core.enums import HashUpdateCause
+        plan, wf = b.w.plan, b.wf
+
+        def static():
+            unconfirmed = wf.declare_static_files(plan, [src])
+            wf.update_file_hashes({q: b.hash_of(q) for q in unconfirmed}, cause=HashUpdateCause.CONFIRMED)
+
+        def define(cmd, inp, out, vol=()):
+            to_check = wf.define_step(plan, cmd, inp_paths=inp, out_paths=list(out), vol_paths=list(vol))
+            if to_check:
+                wf.update_file_hashes({q: b.hash_of(q) for q in to_check}, cause=HashUpdateCause.CONFIRMED)
+            b.ever_output.update(out)
+            b.ever_output.update(vol)
+            b.ever_volatile.update(vol)
+        b.write(src, "source")
+        # build 1
+        static()
+        define("cmdA", [src], [] if volatile else [old], [old] if volatile else [])
+        b.complete(b.find_step("cmdA"))
+        b.log.append(["build-1", "cmdA ->", old, "volatile" if volatile else "regular"])
+        # build 2: the plan reruns
+        plan.reset_for_rerun()
+        static()
+        define("cmdA", [src], [new])
+        define("cmdB", [old], [bout])
+        b.complete(b.find_step("cmdA"))
+        b.log.append(["build-2 (incomplete: cmdB waits for the detached", old, ")"])
+        if tamper:
+            Path(old).write_text("the user edited the old output " + old)
+            b.log.append(["user-edit", old])
+        # build 3
+        plan.reset_for_rerun()
+        static()
+        define("cmdA", [src], [new])
+        if third == "b-reads-new":
+            define("cmdB", [new], [bout])
+        b.log.append(["build-3", third])
+        return ["cmdA", "cmdB"]
+    witness.info = {"old": old, "new": new, "volatile": volatile, "third": third, "tamper": tamper}
+    return witness
+
+
+def e3_rename_history(rng, volatile=None, third=None, tamper=None):
+    """The same three builds through the real serve().  Returns (project, history, info)."""
+    from . import e3
+    d = rng.choice(["", "", "d1/", "d1/s/"])
+    r2, r3, r1 = rng.choice(["drop-b", "drop-b", "b-reads-new"]), rng.random() < 0.2, rng.random() < 0.25
+    volatile = r1 if volatile is None else volatile
+    third = r2 if third is None else third
+    tamper = r3 if tamper is None else tamper
+    old, new = f"{d}old.txt", f"{d}new.txt"
+
+    def plan(aout, b_inp):
+        acts = [{"op": "static", "paths": ["src.txt"]}]
+        a = {"op": "step", "label": "mkA", "inp": ["src.txt"]}
+        if volatile and aout == old:
+            a["vol"] = [aout]
+        else:
+            a["out"] = [aout]
+        acts.append(a)
+        if b_inp is not None:
+            acts.append({"op": "step", "label": "useB", "inp": [b_inp], "out": ["b.txt"]})
+        return acts
+    project = e3.Project(sources={"src.txt": "source"}, program={"scripts": {"plan.py": plan(old, None)}, "commands": {}}, env={})
+    h2 = [{"op": "script", "path": "plan.py", "actions": plan(new, old)}]
+    h3 = [{"op": "script", "path": "plan.py", "actions": plan(new, new if third == "b-reads-new" else None)}]
+    info = {"old": old, "new": new, "third": third, "tamper": tamper, "volatile": volatile}
+    return project, [{"edits": h2}, {"edits": h3}], info
+
+
+def e3_rename_case(rng, **variant):
+    """Run it; returns (violations, record)."""
+    from . import e3
+    project, history, info = e3_rename_history(rng, **variant)
+    project = project.clone()
+    out = []
+    with tempfile.TemporaryDirectory(prefix="verif-clean-e3r-") as root:
+        project.materialise(root)
+        results = []
+        for i, phase in enumerate([{"edits": []}] + history):
+            for edit in phase["edits"]:
+                e3.apply_edit(project, root, edit)
+            if i == 2 and info["tamper"]:
+                e3.write_file(os.path.join(root, info["old"]), "the user edited the old output")
+            results.append(e3.build(root, project.program, env={}, timeout=120))
+    r1, r2, r3 = results
+    old = info["old"]
+    rec = {"info": info, "rc": [r.returncode for r in results], "files": [sorted(r.files) for r in results],
+           "removed_events": [[e[1] for e in r.events if e[0] == "REMOVE"] for r in results],
+           "old_node_after_build2": _gstate(e3.parse_graph(r2.graph), old),
+           "how": "harness.clean_common.e3_rename_history: plan.py edited twice, harness.e3.build after each edit"}
+    if old not in r1.files:
+        return out, rec          # nothing was produced: not the scenario
+    if (r2.returncode & ~8) != 0 and old not in r2.files:
+        out.append(("oracle:e3:guard-ignored:returncode", f"incomplete middle build (rc={r2.returncode}) removed {old}"))
+    if (r3.returncode & ~8) == 0:
+        g3 = e3.parse_graph(r3.graph)
+        st, _ = _gstate(g3, old)
+        if info["tamper"]:
+            # C07 asks nothing about modified files; C06: a modified regular output must stay
+            if not info["volatile"] and old not in r3.files and old in r2.files:
+                out.append(("oracle:e3:removed-file:modified-output", f"{old} was edited by the user and removed by build 3"))
+        else:
+            if old in r3.files:
+                sig = "oracle:rename:volatile-output-forgotten" if info["volatile"] else "oracle:e3:orphan-file-kept"
+                out.append((sig, f"{old} ({'volatile ' if info['volatile'] else ''}output of mkA before the rename) is unmodified, no longer "
+                                 f"in the graph and still on disk after the successful third build"))
+            if st is not None:
+                out.append(("oracle:e3:orphan-node-kept", f"{old} is still a node ({st}) after the successful third build"))
+    return out, rec
